@@ -11,6 +11,7 @@ from vf.gen import rb as G
 from vf.gen import acl as GA
 from vf.ref import acl as A
 from vf.ref import rulebook as RB
+from vf.ref import rulelang as R
 from vf.util import plain, unplain, paths
 
 LEVEL = "exploration"
@@ -24,8 +25,8 @@ ASSUMPTIONS = [
     "monotonicity law evaluated on trees without negated rows (a negated row is meant to be dropped under cant_delete)",
     "juniper 'inactive:' rows are not generated",
 ]
-FLOORS = {"quick": {"filters_compared": 3000, "strict_raises_agreed": 300, "strict_passes_agreed": 100, "monotone_checked": 1000, "idempotent_checked": 3000, "explicit_negated_rule_cases": 400, "production_merges_checked": 1500},
-          "thorough": {"filters_compared": 100000, "strict_raises_agreed": 10000, "strict_passes_agreed": 3000, "monotone_checked": 30000, "idempotent_checked": 100000, "explicit_negated_rule_cases": 12000, "production_merges_checked": 50000}}
+FLOORS = {"quick": {"filters_compared": 3000, "strict_raises_agreed": 300, "strict_passes_agreed": 100, "monotone_checked": 1000, "idempotent_checked": 3000, "explicit_negated_rule_cases": 400, "production_merges_checked": 1500, "diff_texts_filtered": 600, "ignore_rule_filters": 300},
+          "thorough": {"filters_compared": 100000, "strict_raises_agreed": 10000, "strict_passes_agreed": 3000, "monotone_checked": 30000, "idempotent_checked": 100000, "explicit_negated_rule_cases": 12000, "production_merges_checked": 50000, "diff_texts_filtered": 20000, "ignore_rule_filters": 10000}}
 VENDORS = ["huawei", "cisco", "pc", "routeros", "juniper", "arista"]
 KNOWN_WINNER = "C06/children-rules-lost-when-global-or-negated-match-outranks-local"
 KNOWN_GLOBAL_MERGE = "C06/children-rules-lost-when-same-row-is-global-in-another-acl"
@@ -244,6 +245,44 @@ def check_case(seed, acc, negpair=False):
         if got_p != res["A+B"]:
             acc.violation("C06/production-merge-differs", "the ACL merged the production way (RunGeneratorResult.acl_text) filters differently from the concatenation of the two ACL texts",
                           dict(w, indents=[ia, ib], got=got_p, expected=res["A+B"]))
+    # the diff-text entry point (filter_diff): a diff over the same rows, filtered by the same ACL, keeps exactly the rows apply_acl keeps
+    # (whatever their sign), and only a removal of a not-deletable row changes its sign (to "kept")
+    if not neg and vname in ("huawei", "cisco", "arista") and "A" in res:  # (pc: rows may begin with the negation sign `-`, which a signed text cannot tell from a removal)
+        from annet.annlib import filter_acl as FA
+        from annet.vendors import registry_connector as _rc
+        drng = random.Random(seed ^ 0xD1F)
+
+        def signed(tree_, depth, inherited):
+            out = []
+            for row, ch in tree_:
+                sg = inherited or drng.choice(["-", "+", " ", " "])
+                out.append("%s %s%s" % (sg, "  " * depth, row))
+                out += signed(ch, depth + 1, sg if sg in "-+" else None)
+            return out
+
+        def rows_of(text_):
+            out, stack = [], []
+            for ln in text_.split("\n"):
+                if not ln.strip():
+                    continue
+                body = ln[2:] if ln[0] in "+-" else ln[1:]  # filter_diff prints `<sign> <indent>row` for +/- and ` <indent>row` for kept rows
+                d_ = (len(body) - len(body.lstrip(" "))) // 2
+                stack[d_:] = [body.strip()]
+                out.append(tuple(stack))
+            return out
+        dtext = "\n".join(signed(pt, 0, None))
+        fmt_ = _rc.get()[vname].make_formatter()
+        try:
+            fout = FA.filter_diff(FA.make_acl(texts["A"], vname), fmt_, dtext)
+            acc.count("diff_texts_filtered")
+            got_rows = sorted(rows_of(fout))
+            want_rows = sorted(tuple(p_) for p_ in paths(unplain(res["A"])))
+            if got_rows != want_rows:
+                acc.violation("C06/filter_diff-keeps-other-rows", "the diff-text filter keeps other rows than the configuration filter does for the same rows and ACL",
+                              dict(w, diff_text=dtext.split("\n")[:40], filtered=fout.split("\n")[:40], missing=[list(x) for x in want_rows if x not in got_rows][:5],
+                                   extra=[list(x) for x in got_rows if x not in want_rows][:5]))
+        except Exception as e:
+            acc.violation("C06/filter_diff-exception/%s" % type(e).__name__, "filter_diff raised", dict(w, error=repr(e)[:200], diff_text=dtext.split("\n")[:30]))
     # text entry point
     if vname in ("huawei", "cisco", "arista", "pc") and "A" in res:
         from annet.annlib import filter_acl
@@ -260,7 +299,66 @@ def check_case(seed, acc, negpair=False):
     return w
 
 
+def check_ignore_case(seed, acc):
+    """filter ACLs (--filter-acl, compiled with allow_ignore=True) may hold '!' rules at any depth: under a block whose children are all
+    passed (`~`), the rows matched by a more specific ignore rule are dropped, everything else stays"""
+    from annet.annlib.rbparser.acl import compile_acl_text
+    from annet.annlib.patching import apply_acl
+    rng = random.Random(seed)
+    vname = VENDORS[rng.randrange(len(VENDORS))]
+    from annet.vendors import registry_connector
+    prefix = registry_connector.get()[vname].reverse
+    U = G.gen_rulebook(rng, depth=3, prefix=prefix, allow=())
+    t = G.gen_tree(rng, U, fill=0.8)
+    blocks = [r for r in U if r.children and not r.pat.startswith(prefix + " ")]
+    if not blocks:
+        return
+    B = rng.choice(blocks)
+    X = rng.choice(B.children).pat.split()[0]
+    depth2 = rng.random() < 0.5 and any(c.children for c in B.children)
+    lines = [B.pat, "    ~ %global", "    !%s ~" % X, "    !%s" % X]
+    if depth2:
+        C = rng.choice([c for c in B.children if c.children])
+        Y = rng.choice(C.children).pat.split()[0]
+        lines = [B.pat, "    ~ %global", "    %s" % C.pat, "        !%s ~" % Y, "        !%s" % Y]
+    text = "\n".join(lines)
+    pt = plain(t)
+    w = {"seed": seed, "ignore_case": True, "vendor": vname, "acl_A": text, "tree": pt}
+    try:
+        got = plain(apply_acl(t, compile_acl_text(text, vname, True), fatal_acl=False))
+    except Exception as e:
+        acc.violation("C06/exception/%s" % type(e).__name__, "compiling / applying a filter ACL with ignore rules raised", dict(w, error=repr(e)[:300]))
+        return
+    acc.count("ignore_rule_filters")
+
+    def keep(nodes, lvl):
+        out = []
+        for row, ch in nodes:
+            if lvl == 0:
+                if R.match(B.pat, row) is None:
+                    continue
+                out.append([row, keep(ch, 1)])
+            elif lvl == 1 and not depth2:
+                if row.split()[0] != X:
+                    out.append([row, keep(ch, 9)])
+            elif lvl == 1:
+                out.append([row, keep(ch, 2 if R.match(C.pat, row) is not None else 9)])
+            elif lvl == 2:
+                if row.split()[0] != Y:
+                    out.append([row, keep(ch, 9)])
+            else:
+                out.append([row, keep(ch, 9)])
+        return out
+    exp = keep(pt, 0)
+    acc.case(["ignore", vname, text, pt], nontrivial=(exp != pt and bool(exp)))
+    if got != exp:
+        acc.violation("C06/ignore-rule-filter-differs", "a filter ACL with an ignore rule does not drop exactly the rows that rule matches under the covered block",
+                      dict(w, expected=exp, got=got))
+
+
 def run_shard(spec, acc):
+    if spec["mode"] == "replay" and spec["witness"].get("ignore_case"):
+        return check_ignore_case(spec["witness"]["seed"], acc)
     if spec["mode"] == "replay":
         check_case(spec["witness"]["seed"], acc, negpair=bool(spec["witness"].get("negpair")))
         return
@@ -274,3 +372,5 @@ def run_shard(spec, acc):
             acc.sample({k2: w[k2] for k2 in ("vendor", "acl_A", "acl_B", "tree")})
         if j % 5 == 4:
             check_case(rng.randrange(1 << 48), acc, negpair=True)
+        if j % 5 == 1:
+            check_ignore_case(rng.randrange(1 << 48), acc)
